@@ -166,8 +166,8 @@ theorem addExpr_src (G : GLang) (c : GCfg) (root : Node) (origin : Option Node) 
       | some p => .ok (g, p.2)
       | none =>
         let g1 : GState := { (curG g cur).1 with srcNodes := (curG g cur).1.srcNodes ++ [(id, (curG g cur).2)] }
-        match (if c.withTypes && (inCanon G ty || c.withNoncanonicalTypes) then
-            annotateType G c g1 root (curG g cur).2 (normT G.store ty) false (some (inCanon G ty)) else .ok g1) with
+        match (if c.withTypes && (inCanon G (normT G.store ty) || c.withNoncanonicalTypes) then
+            annotateType G c g1 root (curG g cur).2 (normT G.store ty) false (some (inCanon G (normT G.store ty))) else .ok g1) with
         | .error e => .error e
         | .ok g2 => .ok (originG c origin g2 (curG g cur).2, (curG g cur).2) := by
   cases cur <;> rfl
